@@ -300,7 +300,7 @@ MANIFEST = {
             "into the single computation getBH_level2 (and the chain down to level 1 forwards same-named parameters), the functional interface's rank "
             "table agrees with each field function's signature and with the rank implied by each attribute's validator (every registered class, every "
             "parameter), magpylib.core exports are the functions the class wrappers call, and position/orientation are tiled identically. "
-            "Value equality and dataframe ordering are not decided. Round 3: memoising getters are invalidated by every writer of their inputs (W6), the full-turn CylinderSegment fallback combines sibling cylinder calls of the same shape (W7), rows handed to level 1 enumerate (source, path, pixel) alike (W4, layout typing) and the dataframe index enumerates (source, path, sensor, pixel) in the order of the value rows (W8).",
+            "Value equality and dataframe ordering are not decided. Round 3: memoising getters are invalidated by every writer of their inputs (W6), the full-turn CylinderSegment fallback combines sibling cylinder calls of the same shape (W7), rows handed to level 1 enumerate (source, path, pixel) alike (W4, layout typing) and the dataframe index enumerates (source, path, sensor, pixel) in the order of the value rows (W8). Rounds 4-5: the method forms hand sources/observers on as given (W1b, ORIGIN); a memo whose input is handed out by reference is refused (W6).",
     "design_ref": "DESIGN.md §3 C07",
     "note": "Trusted: python ast; the rank of TriangularMesh.mesh (n,3,3) is declared; validators recognised by name.",
     "technique": "static analysis: table/sibling cross-checking over resolved signatures, literals and call sites",
